@@ -211,7 +211,11 @@ func WorkerMain(t *testing.T, bind *Binding) {
 	func() {
 		defer func() {
 			if r := recover(); r != nil {
-				res.Error = fmt.Sprintf("worker panic: %v", r)
+				stk := string(debug.Stack())
+				if len(stk) > 3000 {
+					stk = stk[:3000]
+				}
+				res.Error = fmt.Sprintf("worker panic: %v\n%s", r, stk)
 			}
 		}()
 		switch job.Mode {
@@ -296,8 +300,12 @@ func runReplay(t *testing.T, bind *Binding, job *Job, res *Result) {
 		if j2.K == 0 {
 			j2.K = 6
 		}
-		progress(job, "run %s", c.Prog.ID)
-		Protocol(t, bind, &j2, c.Prog, newAcc())
+		// real parallelism: whether the two conflicting accesses both happen within the race
+		// detector's window depends on real timing, so the protocol is repeated a few times
+		for rep := 0; rep < 6; rep++ {
+			progress(job, "run %s", c.Prog.ID)
+			Protocol(t, bind, &j2, c.Prog, newAcc())
+		}
 	default:
 		vs = replayOther(t, bind, c, job)
 	}
